@@ -11,6 +11,9 @@ Decided clauses:
   R18.3 randombytes_uniform returns 0 for n < 2, else r mod n for the last draw r, on a path
         holding not (r < min) with min a function of n only; randombytes_buf_deterministic is one
         ChaCha20-IETF call over the caller's (buf, size, seed) with the constant 'LibsodiumDRG' nonce.
+  R18.4 the installed source is sticky: the implementation pointer is private to randombytes.c and
+        assigned only by randombytes_set_implementation (the caller's value) and - when still NULL -
+        by randombytes_init_if_needed (the default); no other path replaces or clears it.
 NOT decided: that min == 2^32 mod n (arithmetic); bit-exact replay.
 """
 import re
@@ -197,6 +200,42 @@ def run(ctx, chk):
         chk.ob("R18.3", det, "deterministic generation = crypto_stream_chacha20_ietf(buf, size, 'LibsodiumDRG', seed)", ok,
                loc=det.loc(p.end_iid), detail=why, path=None if ok else p, key="R18.3 randombytes_buf_deterministic")
     chk.floor("R18.3", "returning paths of randombytes_buf_deterministic", k, 1)
+
+    # ---- R18.4 the installed source stays installed -----------------------------------------------------------
+    # `implementation` (randombytes.c) is assigned only by randombytes_set_implementation (the caller's pointer) and by
+    # randombytes_init_if_needed on the path where it was found NULL (the default); nothing else - in particular no
+    # close / stir / reset path - may replace or clear it, or later secrets silently come from another generator.
+    RU = "randombytes/randombytes.c"
+    IMPL = ("g", "implementation")
+    nw = 0
+    for f in prog.functions():
+        if f.decl or f.unit != RU:
+            continue
+        if not any(ins["op"] == "store" and ins["ops"][1][:2] == ["g", "implementation"] for ins in f.insts):
+            continue
+        for p in cm.paths(prog, f):
+            for e in p.events:
+                if e.kind != "store" or e.addr != IMPL:
+                    continue
+                nw += 1
+                if f.sname == "randombytes_set_implementation":
+                    ok = e.val == ("arg", 0)
+                    what = "randombytes_set_implementation installs exactly the caller's implementation"
+                elif f.sname == "randombytes_init_if_needed":
+                    fb = p.facts_before(e.idx)
+                    seen_null = any(l.kind == "load" and l.addr == IMPL and l.idx < e.idx and fb.zeroness(l.res) == "Z" for l in p.events)
+                    ok = seen_null and e.val[0] in ("g", "gep") and T.root(e.val)[0] == "g"
+                    what = "the default generator is installed only when no implementation is set"
+                else:
+                    ok = False
+                    what = "only randombytes_set_implementation / randombytes_init_if_needed assign the implementation pointer"
+                chk.ob("R18.4", f, what, ok, loc=f.loc(e.iid), detail="stores %s" % T.show(e.val, f), path=None if ok else p,
+                       key="R18.4 %s writes-implementation" % f.sname)
+    # other units cannot name the (static) pointer; make sure it still is internal
+    gd = prog.global_def(RU, "implementation")
+    chk.ob("R18.4", "randombytes.c", "the implementation pointer is private to randombytes.c", bool(gd) and bool(gd[1].get("internal")),
+           key="R18.4 implementation-linkage")
+    chk.floor("R18.4", "stores to the implementation pointer", nw, 2)
 
 
 def macro_for(prog, name):
